@@ -25,7 +25,8 @@
 From LV Require Import Base.Bytes Base.Sx Model.Obj Model.Save Model.XrefMerge Model.Incremental Spec.History
   Proofs.XrefMergeProofs Proofs.XrefLoadProofs Proofs.IncrementalProofs Proofs.C07Full Proofs.C07Witness.
 From LV Require Model.Loader Model.Xref Spec.SaveSpec Proofs.SaveProofs Proofs.LoadProofsXref Proofs.FilterProofsDict Proofs.StrictRevisionProofs Proofs.StrictIncrementalProofs Proofs.C07Bytes Proofs.C07BytesTable
-  Proofs.C07BytesStream Proofs.C07BytesHistory Proofs.C07BytesExample Spec.AbstractDoc Proofs.C07ResProofs.
+  Proofs.C07BytesStream Proofs.C07BytesHistory Proofs.C07BytesExample Spec.AbstractDoc Proofs.C07ResProofs
+  Proofs.C07BytesMixed Proofs.C07BytesMixedExample.
 
 Local Open Scope N_scope.
 
@@ -238,7 +239,7 @@ Proof. exact extend_chain_layout. Qed.
 (* ---------------------------------------------------------------------------------------------------------
    C. Byte level: files written by lopdf itself (Model/Loader.v is the reader, nothing is abstracted)
    --------------------------------------------------------------------------------------------------------- *)
-Import C07Bytes C07BytesTable C07BytesStream C07BytesHistory C07BytesExample.
+Import C07Bytes C07BytesTable C07BytesStream C07BytesHistory C07BytesExample C07BytesMixed C07BytesMixedExample.
 
 (* (C1) A file that satisfies the invariant loads, to exactly the document the invariant describes.  good_file F v m xs
    xt entries t objs: F begins with the header and binary-mark lines of v and m, ends with startxref xs %%EOF; reading
@@ -424,6 +425,73 @@ Theorem C07_inc_resources_shadow_v0_refuted : exists s page pd l,
   AbstractDoc.effective_resources (cur_objects (fst (get_or_create_resources_v0 s page))) page = Some [].
 Proof. exact C07ResProofs.inc_resources_shadow_v0_refuted. Qed.
 
+(* ---------------------------------------------------------------------------------------------------------------- *)
+(* (C5) MIXED-FORMAT HISTORIES.  IncrementalDocument::save_internal writes the section in the format named by
+   prev_documents.reference_table.cross_reference_type (Incremental.inc_save: xd_type (i_prev s)); the loader sets that
+   field to the type of the NEWEST section and new_from_prev copies it, but reference_table is a public field and the
+   base may come from another producer, so a history can mix the two formats.  [mixed_history base steps F xs objs]
+   (Proofs/C07BytesMixed.v): a base -- a Document::save file of either format, or ANY file satisfying good_file -- followed
+   by a LIST of incremental saves, newest first; each step (fmt, xt) carries its OWN format tag fmt (the type the update
+   was made with, not tied to anything) and the type xt load returned for the previous bytes.
+   Every file of every such history satisfies the invariant, with the type of the newest step ...                       *)
+Theorem C07_mixed_history_invariant : forall base steps F xs objs,
+  mixed_history base steps F xs objs ->
+  exists v m entries t, good_file F v m xs (newest_type base steps) entries t objs.
+Proof. exact mixed_history_good. Qed.
+
+(* ... hence loads to the fold of the overlays (stream steps add their cross-reference stream object, as the loader does) *)
+Theorem C07_mixed_history_loads : forall base steps F xs objs,
+  mixed_history base steps F xs objs ->
+  Loader.get_xref_start F = Some xs /\
+  exists v m t mx, Loader.load F = Loader.LOk {| d_version := v; d_binary_mark := m; d_trailer := t; d_objects := objs; d_max_id := mx |}
+                                              (newest_type base steps).
+Proof. exact mixed_history_loads. Qed.
+
+(* ... and can be updated again through the modelled API with ANY format tag (generalises C07_history_update_again) *)
+Theorem C07_mixed_history_update_again : forall base steps F xs objs pd xt fmt edits,
+  mixed_history base steps F xs objs ->
+  Loader.load F = Loader.LOk pd xt ->
+  let s := fold_left apply_edit edits (create_from F {| xd_doc := pd; xd_start := xs; xd_type := fmt |}) in
+  let nd := xd_doc (i_new s) in
+  StrictRevisionProofs.rev_dom nd -> SaveSpec.known_deep nd = false ->
+  Save.blen (io_bytes (inc_save s)) < u32_mod ->
+  Forall (fun io : oid * obj => In (fst io) (map fst (d_objects pd)) \/ ~ In (fst (fst io)) (SaveProofs.obj_numbers (d_objects pd))) (d_objects nd) ->
+  io_status (inc_save s) = IncOk /\
+  mixed_history base ((fmt, xt) :: steps) (io_bytes (inc_save s)) (io_start (inc_save s))
+                (step_objs fmt objs nd (Save.blen (F ++ StrictIncrementalProofs.inc_lines nd))).
+Proof. exact mixed_edit_step. Qed.
+
+(* the one-format histories of C07_history_invariant / C07_history_loads are the special case "every tag = the base's" *)
+Theorem C07_history_is_mixed : forall F xs fmt objs,
+  lopdf_history F xs fmt objs -> exists n, mixed_history (SaveSpec.xtype_of fmt) (same_steps fmt n) F xs objs.
+Proof. exact lopdf_history_mixed. Qed.
+
+(* THE FORMAT IS INHERITED.  In every step the type load returns is the type of the previous step (of the base); so when
+   every update is made with the type load returned ([inherits]: the API used without writing to reference_table) every
+   tag equals the base's format, the newest section has it too, and over a base written by Document::save the history is
+   a lopdf_history: "one format per history" is a theorem about the untouched API, not a restriction of the family. *)
+Theorem C07_format_is_inherited : forall fmt steps F xs objs,
+  mixed_history (SaveSpec.xtype_of fmt) steps F xs objs ->
+  loaded_types_ok (SaveSpec.xtype_of fmt) steps /\
+  (Forall inherits steps ->
+   Forall (fun st => fst st = fmt) steps /\ newest_type (SaveSpec.xtype_of fmt) steps = SaveSpec.xtype_of fmt) /\
+  (saved_base (SaveSpec.xtype_of fmt) steps F xs objs -> Forall inherits steps -> lopdf_history F xs fmt objs).
+Proof.
+  intros fmt steps F xs objs H. split; [exact (mixed_loaded_type _ _ _ _ _ H)|].
+  split; [exact (format_is_inherited fmt steps F xs objs H) | exact (inherited_is_lopdf_history fmt steps F xs objs)].
+Qed.
+
+(* non-vacuity: save (table), update (table), then the loaded document switched to the stream format and updated: a
+   cross-reference STREAM section whose Prev names a table section.  The history is a mixed_history that does NOT inherit;
+   the loader model run on the bytes returns the predicted objects (1-4 and the cross-reference stream object 5). *)
+Theorem C07_example_mixed :
+  mixed_history Xref.XTTable [(XStream, Xref.XTTable); (XTable, Xref.XTTable)] mx_F3 (io_start (inc_save mx_s2)) mx_objs3 /\
+  ~ Forall inherits [(XStream, Xref.XTTable); (XTable, Xref.XTTable)] /\
+  SaveProofs.obj_numbers mx_objs3 = [1; 2; 3; 4; 5] /\
+  lookup mx_objs3 (3, 0) = Some (OStr (bs "newer") false) /\ lookup mx_objs3 (2, 0) = Some (OInt 7) /\
+  exists d', Loader.load mx_F3 = Loader.LOk d' Xref.XTStream /\ d_objects d' = mx_objs3 /\ d_max_id d' = 5.
+Proof. exact example_mixed. Qed.
+
 Print Assumptions C07_merge_chain_latest.
 Print Assumptions C07_read_chain_partial.
 Print Assumptions C07_load_terminates.
@@ -459,3 +527,9 @@ Print Assumptions C07_generation_hypothesis_needed.
 Print Assumptions C07_inc_resources_keep_inherited.
 Print Assumptions C07_example_inc_resources.
 Print Assumptions C07_inc_resources_shadow_v0_refuted.
+Print Assumptions C07_mixed_history_invariant.
+Print Assumptions C07_mixed_history_loads.
+Print Assumptions C07_mixed_history_update_again.
+Print Assumptions C07_history_is_mixed.
+Print Assumptions C07_format_is_inherited.
+Print Assumptions C07_example_mixed.
